@@ -27,6 +27,7 @@ RULE = (
     "Spec oracle (python, from the RFC table): admitted iff signature ok and version >= 3.0 and mechanism known and first "
     "item is READY and Socket-Type compatible and identity <= 255; admitted under the announced identity or a fresh one; "
     "a rejected connection has both halves dropped."
+    " Family accept-side (engine net): on a bound endpoint over a real transport, with the monitor installed before bind, after bind, or replaced after bind, a raw client presents one deviation (version, mechanism, signature, incompatible / unknown Socket-Type, 256-byte identity, a message where READY is due) — its connection is closed and the socket's CURRENT monitor is told AcceptFailed; a well-formed client that follows is Accepted."
 )
 ASSUMPTIONS = ["freshness of auto-assigned identities (UUIDv4) is trusted", "monitor events (AcceptFailed) are observed by the net engine (C20)"]
 TRUSTED = ["RFC 28/29/30/31 compatibility table as typed into Spec/Compat.lean and vlib/worldgen.py"]
@@ -83,6 +84,7 @@ def cases(tier, rng):
         for fi in FIRST:
             out.append(build(local, good, n=n, tag="deviation-first-item", **{**base, "first": fi}))
             n += 1
+    out += accept_side_cases(tier)
     product = itertools.product(wg.TYPES9, PEER_TYPES, VERSIONS, MECHS, SIGS, IDENTS, FIRST)
     if tier == "quick":
         allp = list(product)
@@ -94,6 +96,60 @@ def cases(tier, rng):
             out.append(build(t[0], t[1], t[2], t[3], t[4], t[5], t[6], n, "product-full"))
             n += 1
     return out
+
+
+def accept_side_cases(tier):
+    """ACCEPT side, over a real transport (engine net): nobody called anything when a remote's handshake is rejected, so
+    the monitor is the only report there is — the one the socket has at that moment, whether it was installed before
+    bind, after bind, or replaced after bind.  One deviation at a time, then a well-formed peer on the same endpoint."""
+    from vlib import netgen
+
+    out = []
+    n = 0
+    devs = {"version": dict(ver=(2, 1)), "mechanism": dict(mech=b"XNULL"), "signature": dict(sig="byte0"), "incompatible": dict(pt="SAME"),
+            "socket-type": dict(pt="BOGUS"), "identity": dict(ident=b"J" * 256), "first-item": dict(first="message"), "none": {}}
+    for local in (["PULL", "ROUTER", "PUB", "REP"] if tier == "quick" else wg.TYPES9):
+        good = wg.COMPAT[local][0]
+        for tr in (["tcp4"] if tier == "quick" else [t for t in netgen.transports() if t in ("tcp4", "ipc")]):
+            for mon in ("before", "after", "replaced"):
+                for dname, d in devs.items():
+                    pt = d.get("pt", good)
+                    if pt == "SAME":
+                        pt = next(x for x in wg.ALL12 if x not in wg.COMPAT[local])
+                    ver, mech, sig = d.get("ver", (3, 0)), d.get("mech", b"NULL"), d.get("sig", "ok")
+                    g = zmtp.greeting(ver[0], ver[1], mech, 0, 0xFE if sig == "byte0" else 0xFF, 0x7F)
+                    item = zmtp.message([b"hello"]) if d.get("first") == "message" else zmtp.ready(pt, d.get("ident"))
+                    ops = [f"sock 1 {local}"] + {"before": ["monitor 1", f"bind 1 {tr}", "events 1 1"], "after": [f"bind 1 {tr}", "monitor 1"],
+                                                 "replaced": ["monitor 1", f"bind 1 {tr}", "monitor 1"]}[mon]
+                    ops += ["rawconn 1 ep#0", f"rawsend 1 {wg.hx(g + item)}"]
+                    ops += ["rawwait 1 hs", "events 1 1"] if dname == "none" else ["rawwait 1 eof", "events 1 1"]
+                    ops += ["rawconn 2 ep#0", f"rawhs 2 {good}", "rawwait 2 hs", "events 1 1"]
+                    c = Case(f"accept-side-{local}-{tr}-{mon}-{dname}#{n}", "net", ops, ["accept-side"])
+                    c.expect = ("accept-side", dname)
+                    out.append(c)
+                    n += 1
+    return out
+
+
+def accept_side_oracle(case, lines):
+    if any(("PANIC" in l) or l.startswith(("ABORT", "TIMEOUT")) for l in lines):
+        return "the handshake panicked/aborted"
+    dname = case.expect[1]
+    res = list(zip(case.ops, lines[1:]))
+    evs = [l for op, l in res if op.startswith("events")][-2:]
+    first = next(l for op, l in res if op.startswith("rawwait 1"))
+    if dname == "none":
+        if first != "hs-ok" or evs[0] != "events Accepted":
+            return f"a well-formed compatible peer was not admitted / not reported: {first}, {evs[0]}"
+    else:
+        if first != "eof":
+            return f"a connection rejected for its {dname} was not closed: {first}"
+        if evs[0] != "events AcceptFailed":
+            return (f"a connection rejected for its {dname} on the accept side was reported to nobody: the socket's monitor got "
+                    f"`{evs[0]}` (want AcceptFailed)")
+    if evs[1] != "events Accepted":
+        return f"the well-formed peer that followed was not admitted / not reported: {evs[1]}"
+    return None
 
 
 def reference(local, ptype, ver, mech, sig, ident, first):
@@ -121,6 +177,8 @@ def oracle(case, lines):
         return "the handshake panicked/aborted"
     if not case.expect:
         return None
+    if case.expect[0] == "accept-side":
+        return accept_side_oracle(case, lines)
     local, ptype, ver, mech, sig, ident, first = case.expect
     reasons = reference(*case.expect)
     res = list(zip(case.ops, lines[1:]))
@@ -150,6 +208,8 @@ def oracle(case, lines):
 
 
 def nontrivial(case, lines):
+    if case.expect is not None and case.expect[0] == "accept-side":
+        return True
     return case.expect is not None and len(reference(*case.expect)) <= 1
 
 
